@@ -1,8 +1,15 @@
-"""C01 (Python half for now): chunked kernel invocation and normalisation."""
+"""
+C01 -- dispersity-averaged I(q) is the documented volume-normalised weighted mean.
+
+C half: contracts/kernel_c.py (generated kernels <model>_Iq/_Iqxy).
+Python half: contracts/pykernel.py (chunked invocation, normalisation),
+details.make_details (below).
+"""
 PROP = "C01"
 
 
 def check(reg, tier):
-    from contracts import pykernel
+    from contracts import pykernel, kernel_c
     pykernel.dll_call_kernel(reg, PROP)
     pykernel.kernel_Fq_Iq(reg, PROP)
+    kernel_c.kernel_contracts(reg, PROP, tier)
